@@ -36,6 +36,9 @@
 #include <sys/mman.h>
 #include <sys/stat.h>
 #include <sys/wait.h>
+#ifdef C16_FN
+#include "hfile.c"      /* the library's own source (-I<repo>/hdf/src): gives access to its static functions */
+#endif
 #include "hdf.h"
 #include "hfile_priv.h"
 #include "mfhdf.h"
@@ -581,10 +584,6 @@ static struct { const char *name; void (*fn)(const char *); } WL[] = {
 };
 #define NWL ((int)(sizeof WL / sizeof WL[0]))
 
-#ifdef C16_FN
-#include "drive_fault_fn.h"
-#endif
-
 /* ------------------------------------------------------------------------------------------------ */
 struct image { unsigned char *b; long n; };
 static struct image slurp(const char *p)
@@ -652,6 +651,10 @@ static void wl_body(const char *path, void *arg)
     armed = 1; recording = 1;
     fn(path);
 }
+
+#ifdef C16_FN
+#include "drive_fault_fn.h"
+#endif
 
 static struct { int have; struct outcome o; int nondet; } BASE[NWL];
 
